@@ -211,3 +211,18 @@ Proof.
   exists (snd (config_new true 0%Z heap0)), 0. split; [simpl; lia|].
   split; vm_compute; discriminate.
 Qed.
+
+(* State.copy hands out fresh cells: a new state object with its own Config and its own two
+   generators, carrying the content of the original (this is what the differential run checks
+   with numpy.shares_memory on every array that steps modify) *)
+Theorem state_deepcopy_fresh : forall s h,
+  let w := fst (state_deepcopy s h) in
+  let h' := snd (state_deepcopy s h) in
+  w = h_nst h /\ s_cfg (h_st h' w) = h_ncfg h /\ rng_of h' w = h_nrng h /\ py_of h' w = h_npy h
+  /\ s_data (h_st h' w) = s_data (h_st h s)
+  /\ (forall s0, s0 < h_nst h -> h_st h' s0 = h_st h s0).
+Proof.
+  intros s h. unfold state_deepcopy, rng_of, py_of. hsimpl.
+  repeat rewrite upd_same. simpl. repeat rewrite upd_same. simpl.
+  repeat split; auto. intros s0 Hs. rewrite upd_other; auto. lia.
+Qed.
